@@ -12,7 +12,7 @@ from harness import zones as Z
 ID = "C12"
 BACKENDS = ("py", "rs")
 GEN_MODULES = ()
-MIN_THEOREMS = 20
+MIN_THEOREMS = 38
 US = D.US
 DAY = 86400 * US
 YMAX = Z.YMAX_QUICK
@@ -591,6 +591,8 @@ MATCHERS = {"boundary": _m_boundary}
 def extra_evidence(tier):
     return dict(
         unit_reading="second/minute/hour: same truncated wall label AND same UTC offset; day and longer: same date label",
+        subday_full_theorems="subday_startOf_noedge … subday_passes_disjoint_noedge: full C12 (label-unit AND UTC offset) for second/minute/hour "
+                             "whenever no edge of a gap/overlap lies inside the unit (noEdge: labels all ordinary or all repeated)",
         partial_theorems_missing={
             "subday_startOf_partial / subday_endOf_partial": "boundary label of a second/minute/hour unit skipped or repeated, or a gap/overlap "
                                                              "beginning/ending inside the unit (finding F11, matcher 'boundary')",
